@@ -43,7 +43,7 @@ func (e *Engine) lemmaObligations(props map[string]bool) (obls []*Obligation, er
 		tr := &FnTrans{eng: e, smt: newSmt(e, lm.Arith == "int"), name: "lemma." + lm.Name, props: lm.Props, oblCnt: map[string]int{},
 			vals: map[ssa.Value]Val{}, lets: map[string]*Expr{}, siteByAlias: map[string]*Site{}, siteInstr: map[string]ssa.CallInstruction{},
 			ghostSites: map[string]*Site{}, usedSpecs: map[string]bool{}, abstracted: map[string]int{}, heapAnc: map[string][]*frameFact{}, baseAC: map[string]string{}, heapBases: map[string][]string{}, baseDone: map[string]bool{}, frameDone: map[string]bool{},
-			loopInfo: map[int]string{}, storeSites: map[*ssa.Store][]string{}, eventSites: map[eventKey][]string{}, eventAliases: map[string]bool{}, usedGlobalInvs: map[string]Clause{}, escCache: map[*ssa.Alloc]bool{}, ifaceTests: map[string]types.Type{}}
+			loopInfo: map[int]string{}, storeSites: map[*ssa.Store][]string{}, eventSites: map[eventKey][]string{}, rangeVisited: map[*ssa.Range]string{}, rangeDom0: map[*ssa.Range]string{}, eventAliases: map[string]bool{}, usedGlobalInvs: map[string]Clause{}, escCache: map[*ssa.Alloc]bool{}, ifaceTests: map[string]types.Type{}}
 		tr.entryHeap = tr.newRoot()
 		env := &Env{tr: tr, vars: map[string]Val{}, heap: tr.entryHeap, oldHeap: tr.entryHeap, quiet: true}
 		goal := env.withPol(1).evalBool(lm.C.E) // no deferred existential instances: lemmas have no hypotheses to draw witnesses from
